@@ -229,3 +229,20 @@ Proof.
   - apply Hnew. reflexivity.
 Qed.
 End GetOpen.
+
+(* concurrent first use of a child scope: two live scopes with the same sanitized key are
+   the same object (consequence of live_scope_stays: both are registered under that key) *)
+Lemma one_scope_per_identity san :
+  (forall k, san (san k) = san k) -> san 0 = 0 ->
+  forall ths sched o1 o2,
+  (forall t, In t ths -> tpc t = Idle) ->
+  let s := run san (init ths) sched in
+  o1 < length (objs s) -> o2 < length (objs s) ->
+  closed (obj s o1) = false -> closed (obj s o2) = false ->
+  skey (obj s o1) = skey (obj s o2) -> o1 = o2.
+Proof.
+  intros Hs H0 ths sched o1 o2 H s L1 L2 C1 C2 K.
+  pose proof (live_scope_stays san Hs H0 ths sched o1 H L1 C1) as E1.
+  pose proof (live_scope_stays san Hs H0 ths sched o2 H L2 C2) as E2.
+  fold s in E1, E2. rewrite K in E1. congruence.
+Qed.
